@@ -26,6 +26,14 @@ class K:
         v = x + 3
         return v
 
+    def tree(self, x):
+        """calls itself on other instances (self.kids) BEFORE binding v: the receivers of the inner calls must not be
+        confused with the receiver of the outer one"""
+        for kid in getattr(self, "kids", ()):
+            kid.tree(x)
+        v = x + 5
+        return v
+
     @property
     def prop(self):
         v = self.key + 4
